@@ -4,6 +4,7 @@ import (
 	"bufio"
 	"encoding/binary"
 	"fmt"
+	"github.com/gogpu/naga/ir"
 	"os"
 	"path/filepath"
 	"sort"
@@ -261,6 +262,22 @@ func witnessExecText(be textBackend) func(w witness) string {
 		mod, stage, err := lowerSrc(w.Src)
 		if err != nil {
 			return stage + ": " + err.Error()
+		}
+		// header lines "// pc <override> = <value>": the module is first resolved by ir.ProcessOverrides
+		pc := ir.PipelineConstants{}
+		for _, l := range splitLines(w.Src) {
+			var k string
+			var v float64
+			if n, _ := fmt.Sscanf(l, "// pc %s = %g", &k, &v); n == 2 {
+				pc[k] = v
+			}
+		}
+		if len(pc) > 0 {
+			clone := ir.CloneModuleForOverrides(mod)
+			if err := ir.ProcessOverrides(clone, pc); err != nil {
+				return "ProcessOverrides: " + err.Error()
+			}
+			mod = clone
 		}
 		rs := resOfModule(mod)
 		oi := 0 // header "// option-set <substring of the option-set name>" selects the option set (default: the first)
